@@ -3,6 +3,8 @@ Writer::finish_with_mac).
 
 Case lines (fields separated by blanks, octets in hex, `-` = empty):
   sign <rq|rs|sb> <1|256> <key> <prior-mac> <msg> <keyname> <ts6> <fudge> <oid> <err> <st6> pyd= pym= X:
+  wsig <rq|rs|sb|un> <1|256> <key> <prior-mac> <id> <qr> <qname> <qtype> <type:rdata,..> <keyname> <ts6> <fudge> <oid> <err> <st6> pre= pyd= pym= X:
+       (message built by the real Writer with compression, TSIG by set_tsig + finish_with_mac, read back by the Reader)
   unsg <algname> <keyname> <ts6> <fudge> <oid> <err> <st6> X:
   read <owner> <type> <class> <ttl> <rdata> X:
   vfy  <rq|rs|sb> <key> <prior-mac> <now6> <msg> <owner> <rdata> pyd= pym= X:
@@ -352,11 +354,85 @@ def sweep_cases(rng, nmsgs):
             yield vfy_line(mode, key, pmac[:i] + bytes([pmac[i] ^ rng.choice([1, 16, 128])]) + pmac[i + 1:], now, msg, owner, rdata, " T:cov:pmac")
 
 
+def txt_rdata(rng):
+    out = b""
+    for _ in range(rng.randint(1, 3)):
+        n = rng.randint(0, 20)
+        out += bytes([n]) + bytes(rng.randrange(256) for _ in range(n))
+    return out
+
+
+def wsig_params(rng):
+    mode = rng.choice(["rq", "rs", "sb", "un"])
+    alg = rng.choice(["1", "256"])
+    key = rand_key(rng)
+    pmac = rand_pmac(rng) if mode in ("rs", "sb") else b""
+    qname = rand_name(rng, 3)
+    while len(qname) > 120:
+        qname = rand_name(rng, 3)
+    rrs = []
+    for _ in range(rng.choice([0, 0, 1, 2, 3, 5])):
+        t = rng.choice([1, 16, 2, 15])
+        sub = (T.name_wire([rand_label(rng)[:10]])[:-1] + qname) if rng.random() < 0.6 else rand_name(rng, 2)
+        if len(sub) > 200:
+            sub = qname
+        rd = {1: bytes(rng.randrange(256) for _ in range(4)), 16: txt_rdata(rng), 2: sub, 15: u16(rng.randrange(65536)) + sub}[t]
+        rrs.append(f"{t}:{hx(rd)}")
+    # the key name often shares a suffix with the QNAME, so that the Writer compresses the TSIG owner
+    r = rng.random()
+    if r < 0.4:
+        kn = T.name_wire([rand_label(rng)[:12]])[:-1] + qname
+    elif r < 0.5:
+        kn = qname
+    else:
+        kn = rand_name(rng)
+    if len(kn) > 255 or not T.valid_name(kn):
+        kn = b"\x03key\x00"
+    ts, st, fudge, oid, err = rand_time(rng), rand_time(rng), rand_fudge(rng), rng.randrange(65536), rand_error(rng)
+    head = (f"wsig {mode} {alg} {hx(key)} {hx(pmac)} {rng.randrange(65536)} {rng.choice([0, 1])} {hx(qname)} "
+            f"{rng.choice([1, 2, 6, 16, 252])} {','.join(rrs) or '-'} {hx(kn)} {hx(u48(ts))} {fudge} {oid} {err} {hx(u48(st))}")
+    return head, dict(mode=mode, alg=alg, key=key, pmac=pmac, kn=kn, ts=ts, st=st, fudge=fudge, oid=oid, err=err)
+
+
+def wsig_cases(rng, n):
+    """two passes: the real Writer builds the message (pass 1, the harness binary is run from here), the octets
+    before the TSIG RR it produced are then part of the case line, so that the model and tsig_py can sign them"""
+    import qv
+    exe = os.path.join(qv.BUILD, "target", "debug", "impl_c11")
+    params = [wsig_params(rng) for _ in range(n)]
+    try:
+        p = subprocess.run([exe], input="\n".join(h for h, _ in params) + "\n", stdout=subprocess.PIPE,
+                           stderr=subprocess.DEVNULL, text=True, timeout=300)
+        outs = [l for l in p.stdout.split("\n") if l]
+    except (OSError, subprocess.TimeoutExpired):
+        outs = []
+    if len(outs) != len(params):
+        outs = ["-"] * len(params)
+    for (head, q), out in zip(params, outs):
+        pre = None
+        for fld in out.split():
+            if fld.startswith("pre="):
+                pre = T.unhx(fld[4:])
+        if pre is None:
+            yield f"{head} pre=- pyd=- pym=- X:-"       # the Writer refused or panicked: reported by the diff with the model
+            continue
+        other = u48(q["st"]) if q["err"] == 18 else b""
+        if q["mode"] == "un":
+            rdata = T.tsig_rdata(T.ALG_NAME[q["alg"]], q["ts"], q["fudge"], b"", q["oid"], q["err"], other)
+            d, full, mac = b"", b"", "none"
+        else:
+            rdata, full, d = T.sign(q["mode"], q["alg"], q["key"], pre, q["kn"], q["ts"], q["fudge"], q["oid"], q["err"], other, q["pmac"])
+            mac = hx(full)
+        exp = f"ok pre={hx(pre)} owner={hx(T.lower(q['kn']))} type=250 class=255 ttl=0 rdata={hx(rdata)} mac={mac}"
+        yield f"{head} pre={hx(pre)} pyd={hx(d)} pym={hx(full)} {X(exp)}"
+
+
 def gen(rng, tier):
     quick = tier == "quick"
     n = 1 if quick else 12
     for _ in range(1500 * n):
         yield sign_case(rng, malformed=rng.random() < 0.06)
+    yield from wsig_cases(rng, 1500 * n)
     for _ in range(300 * n):
         yield unsg_case(rng)
     for _ in range(1500 * n):
@@ -394,7 +470,7 @@ def oracle_ok(case, impl, oracle):
 
 def nontrivial(case, impl, model, oracle):
     op = case.split()[0]
-    if op == "sign":
+    if op in ("sign", "wsig"):
         return impl.startswith("ok")
     if op == "vfy":
         return impl in ("ok", "err BadSig", "err BadTime", "err FormErr")
@@ -409,7 +485,7 @@ def classify(case, impl, model, oracle):
     tag = ""
     if " T:" in case:
         tag = ":" + ":".join(case.rsplit(" T:", 1)[1].split(":")[:2])
-    if op in ("sign", "vfy"):
+    if op in ("sign", "vfy", "wsig"):
         op += ":" + f[1]
     if op.startswith("read"):
         return "read:" + ("valid" if impl.startswith("val=ok") else "invalid") + ":" + impl.split(" tf=")[1].split()[0] + \
@@ -430,7 +506,7 @@ CHECK = {
         "name": "lib", "impl_bin": "impl_c11", "extract": "Extract/ExC11.v", "driver": "run_c11.ml",
         "gen": gen, "nontrivial": nontrivial, "classify": classify, "oracle_ok": oracle_ok,
         "exhaustive": {"quick": False, "thorough": False},
-        "rule": ("seeded cases against the library API: sign_request/response/subsequent on random messages (consistent and "
+        "rule": ("seeded cases against the library API: Writer-built messages (questions, A/TXT/NS/MX records, name compression, key names sharing a suffix with the QNAME) signed by set_tsig + finish_with_mac in all four modes and read back with the Reader; sign_request/response/subsequent on random messages (consistent and "
                  "inconsistent headers, ARCOUNT borrow cases, too-short / ARCOUNT=0 messages), keys of 0..200 octets, both "
                  "algorithms, times 0..2^48-1, fudges, original IDs, error codes incl. BADTIME other-data, prior MACs incl. "
                  ">65535 octets; unsigned(); ReadTsigRr::try_from + accessors + validate_as_tsig on valid and mangled RDATA, "
